@@ -43,6 +43,9 @@ type Cfg struct {
 	Script  int    `json:"script,omitempty"`  // v1 add/remove script depth
 	Fault   bool   `json:"fault,omitempty"`   // divider fault injection
 	Yields  int    `json:"yields,omitempty"`  // handler yields before release
+	OutCap  int    `json:"outcap,omitempty"`  // v1: capacity of the user supplied output channel
+	FbCap   int    `json:"fbcap,omitempty"`   // v1: capacity of the user supplied feedback channel
+	Tail    int64  `json:"tail,omitempty"`    // join: producer pause before closing (units)
 
 	KeyHistory bool `json:"keyhistory,omitempty"`
 	Bound      int  `json:"bound"` // preemption bound, -1 unbounded
